@@ -44,7 +44,7 @@ ROOT0 = '/sim/proj'
 ENV_POOL = {
     'USER': ['alice', 'root'], 'LOGNAME': ['alice'], 'LANG': ['C', 'de_DE.UTF-8', 'tr_TR.ISO-8859-9'],
     'LC_ALL': ['C', 'en_US.UTF-8'], 'TZ': ['UTC', 'Asia/Tokyo', 'America/New_York'], 'TERM': ['dumb', 'xterm-256color'],
-    'COLUMNS': ['20', '400'], 'LINES': ['3'], 'TMPDIR': ['/sim/t2'], 'SHELL': ['/bin/zsh'], 'PATH': ['/x:/y', ''],
+    'COLUMNS': ['20', '40', '100', '400'], 'LINES': ['3', '50'], 'TMPDIR': ['/sim/t2'], 'SHELL': ['/bin/zsh'], 'PATH': ['/x:/y', ''],
     'NO_COLOR': ['1'], 'SOURCE_DATE_EPOCH': ['0', '1234567890'], 'EDITOR': ['vi'], 'PYTHONIOENCODING': ['latin-1'],
     'FILL': ['255'], 'DEBUG': ['1'], 'VERBOSE': ['3'], 'CI': ['true'], 'HOSTNAME': ['h1'], 'XDG_CONFIG_HOME': ['/sim/xdg'],
     'FORCE_COLOR': ['1'], 'CLICOLOR_FORCE': ['1'], 'LC_NUMERIC': ['de_DE.UTF-8'],
@@ -61,7 +61,8 @@ def world_for(case, variant):
     def P(x):
         return x if mode == 'rel' else f'{root}/{x}'
     main = case['tree']
-    table = ['  .2byte ' + g for g in case.get('table', [])] + [gen.SENTINEL]
+    table = ['  .2byte ' + g for g in case.get('table', [])] + ['  .byte ' + k for k in case.get('ctable', [])] + [
+        gen.SENTINEL]
     files = {f'{root}/{case["isa_name"]}': case['isa_text']}
     for rel, lines in progtree.split_files(main).items():
         text = list(lines) + (table if rel == 'main.asm' else [])
@@ -101,9 +102,11 @@ def world_for(case, variant):
     for d in argv_dirs:
         argv += ['-I', d]
     if v.get('pre_image'):
-        files[f'{root}/out.bin'] = OLD
+        # a stale file at the output path: much longer than the new output, or exactly as long (e.g. an earlier build
+        # with another fill byte); in the simulated file system it is as new as the sources
+        files[f'{root}/out.bin'] = v['pre_image'] if isinstance(v['pre_image'], str) else OLD
         if case.get('sink') == 'file':
-            files[f'{root}/list.txt'] = OLD
+            files[f'{root}/list.txt'] = v.get('pre_list', OLD)
     env = {'HOME': v.get('home', '/sim/home'), 'PWD': cwd}
     env.update(v.get('env', {}))
     w = {'files': files, 'links': links, 'argv': argv, 'cwd': cwd, 'env': env,
@@ -303,7 +306,7 @@ def explore(subseed, cfg):
     fmt = rnd.choice(['json', 'json', 'yaml'])
     tg = progtree.TreeGen(rnd, info, n_files=rnd.choice([1, 2, 3, 3, 4]))
     main = tg.generate()
-    case = {'isa_text': gen.isa_text(isa, fmt), 'isa_name': 'isa.' + fmt, 'tree': main, 'table': list(tg.all_globals),
+    case = {'isa_text': gen.isa_text(isa, fmt), 'isa_name': 'isa.' + fmt, 'tree': main, 'table': list(tg.all_globals), 'ctable': list(tg.cross_consts),
             'fmt': rnd.choice(['listing', 'hex', 'intel_hex', 'minhex', 'listing']), 'sink': rnd.choice(['stdout', 'file']),
             'opts': []}
     if rnd.random() < 0.2 and info['addr_bits'] >= 12:
@@ -378,6 +381,14 @@ def explore(subseed, cfg):
         if dim == 'inc' and not ndirs:
             continue
         do(gen_variant(rnd, ndirs, single=dim), 'single:' + dim)
+    if o0['image']:
+        # stale output of exactly the size of the new image, different content
+        stale = ''.join(chr(ord(ch) ^ 0x5A) for ch in o0['image'])
+        v = {'pre_image': stale}
+        if case.get('sink') == 'file' and o0.get('pretty_file'):
+            v['pre_list'] = o0['pretty_file'].swapcase()[::-1]
+        do(v, 'single:pre-same-size')
+        pr['stale_output_same_size'] = pr.get('stale_output_same_size', 0) + 1
     for _ in range(cfg.get('variants', 10) - 6):
         do(gen_variant(rnd, ndirs), 'combo')
     # cross-process tier on a subset of worlds
